@@ -9,7 +9,8 @@ META = dict(
          "compatibility mode, with or without a bound channel; what the relay encodes is handed up as (payload, peer); data for a peer "
          "without permission is queued and flushed in order when CreatePermission is answered (success, error, after 401/438 rounds) or "
          "times out, for every interleaving (invariant over all event sequences); every read of a received packet is inside it (checked "
-         "accessor) except two confirmed defects which are refuted by witness and registered as known findings. The model is tied to the "
+         "accessor), for every byte string and source address. Two confirmed defects of the Send-request framing (GOOGLE/MSN) are refuted "
+         "by witness and registered as known findings; the two ChannelData over-reads were fixed in /repo (7dada38). The model is tied to the "
          "current source on every run by differential execution against the real udp-turn.c over a scripted base socket, virtual clock, "
          "ASan with exactly-sized receive buffers, plus an independent python relay/peer oracle.",
     note="trusted: Coq kernel, extraction (ExtrOcamlBasic only), the hand-written model (tied by sampling, not proof), the harness (scripted "
@@ -49,7 +50,9 @@ TURN_COOKIE = bytes.fromhex("72c64bc6")
 MI = b"\x5a" * 20
 DRAFT9, GOOGLE, MSN, OC2007, RFC5766 = range(5)
 
-# known-finding triggers (constant strings: known/C16.json matches on them)
+# verdicts of the oracle for the confirmed defects (constant strings; known/C16.json matches on TRIGGER[...]).
+# W_CHAN_LEN / W_SHORT were fixed in /repo by 7dada38 ("fixed" entries suppress nothing: if they come back they are violations);
+# their minimised triggers stay in CORPUS, which runs first.
 W_CHAN_LEN = "sanitizer: ChannelData length field exceeds the received packet (udp-turn.c recv: copies min(len, declared) from offset 4)"
 W_SHORT = "sanitizer: packet shorter than 4 bytes read as a ChannelData header while a channel is bound (udp-turn.c recv:)"
 W_PADDED = "relay receives DATA padded to a multiple of 4: Send request of GOOGLE/MSN mode writes the aligned length (stun_message_append, no cookie)"
@@ -649,6 +652,10 @@ CORPUS = [
     ("k2 1 75736572 70617373 S:4c0a800010400:68656c6c6f", "corpus-known"),
     ("k3 4 75736572 70617373 S:620010db8000000000000000000000001ffff:68656c6c6f T:500 T:1000 T:500 T:5000", "corpus"),
     ("k4 3 75736572 70617373 M:6f6373 C:000102030405060708090a0b0c0d0e0f1011121381000000 S:4c0a800010400:68656c6c6f S:4c0a800010400:01", "corpus"),
+    # further minimised triggers of the defects fixed by 7dada38: length field one too large, 1- and 3-byte packets, v6 peer / DRAFT9
+    ("k5 0 75736572 - B:620010db80000000000000000000000010001 R:4c00002010d96:01090000{0009.0} R:4c00002010d96:4000000501020304 R:4c00002010d96:400000040102030405", "corpus-known"),
+    ("k6 4 75736572 - B:4c0a800010400 R:4c00002010d96:01090000{0009.0} R:4c00002010d96:40", "corpus-known"),
+    ("k7 4 75736572 - B:4c0a800010400 R:4c00002010d96:01090000{0009.0} R:4c00002010d96:400000", "corpus-known"),
 ]
 
 
